@@ -179,6 +179,20 @@ def cachedSet : List RStep := [.store, .other, .retIfNil, .store, .memWrite, .re
 /-- driver entry: the regenerated getter program on an absent / present record and an empty / filled memory -/
 def switchGetOp (mem : Option Params) (store : ParStore) : Params := (runGetter switchGet mem store).2
 
+/-! ## the entry points that consult the switch parameters, closed under calls within the keeper -/
+
+/-- the program of a method of a package, if it is in the regenerated list -/
+def readerOf (pkg func : String) : Option ReaderProg := readerProgs.find? (fun r => r.pkg == pkg && r.func == func)
+
+/-- every `call` step of `r` names a method of the same keeper whose program is in the list and is memory-free, to depth `fuel` -/
+def callsClosed : Nat → ReaderProg → Bool
+  | 0, _ => false
+  | fuel + 1, r =>
+    readerCovered r && r.steps.all (fun s => s.kind != "call" ||
+      match readerOf r.pkg ("Keeper." ++ s.arg) with
+      | some r' => callsClosed fuel r'
+      | none => false)
+
 /-! ## a derived value cached under a FINGERPRINT of the record it was derived from -/
 
 /-- `CheckDisabledPrecompiles` with a lookup structure (`derive`) that is rebuilt only when the fingerprint `fp` of the
